@@ -76,7 +76,12 @@ type simVerifiers struct {
 	entries []trustEntry
 	vs      []note.Verifier
 	lookups int
+	// unknownStyle: how the "unknown key" answer is spelled. The interface only asks for an
+	// UnknownVerifierError; it does not promise that its fields echo the query.
+	unknownStyle int
 }
+
+var c07UnknownSentinel = &note.UnknownVerifierError{}
 
 var errSimVerifiers = errors.New("simulated Verifiers failure")
 
@@ -89,6 +94,12 @@ func (s *simVerifiers) Verifier(name string, hash uint32) (note.Verifier, error)
 		}
 	}
 	if len(found) == 0 {
+		switch s.unknownStyle {
+		case 1:
+			return nil, c07UnknownSentinel // one shared zero-valued error
+		case 2:
+			return nil, &note.UnknownVerifierError{Name: strings.ToLower(name) + ".normalised", KeyHash: hash ^ 1}
+		}
 		return nil, &note.UnknownVerifierError{Name: name, KeyHash: hash}
 	}
 	e := s.entries[found[0]]
@@ -430,7 +441,7 @@ func c07NewParty(src *choice.Src, res *core.Result, hint []*ref.Key) *c07Party {
 	if p.useList {
 		p.vs = note.VerifierList(p.spies...)
 	} else {
-		p.vs = &simVerifiers{entries: p.entries, vs: p.spies}
+		p.vs = &simVerifiers{entries: p.entries, vs: p.spies, unknownStyle: src.Intn(3)}
 	}
 	// signers this party would add
 	for i, n := 0, src.Weighted(1, 5, 2); i < n; i++ {
